@@ -124,18 +124,26 @@ def run_impl_side(prop: Prop, cases: list):
     return [_pool_run(c) for c in cases]
 
 
-def run_model_side(prop: Prop, cases: list):
+def run_model_side(prop: Prop, cases: list, impl_side=None):
+    """Model side. For translation-validation style checks (prop.USES_IMPL) the requests are built from
+    the converted real IR contained in the implementation's output."""
     reqs = []
     spans = []
-    for c in cases:
-        r = prop.requests(c)
+    uses = bool(getattr(prop, "USES_IMPL", False))
+    if uses and impl_side is None:
+        impl_side = run_impl_side(prop, cases)
+    for i, c in enumerate(cases):
+        try:
+            r = prop.requests(c, impl_side[i][0]) if uses else prop.requests(c)
+        except BaseException as e:
+            r = []
         spans.append((len(reqs), len(reqs) + len(r)))
         reqs.extend(r)
     answers = leandrv.run_batch(reqs)
     outs = []
-    for c, (a, b) in zip(cases, spans):
+    for i, (c, (a, b)) in enumerate(zip(cases, spans)):
         try:
-            outs.append(prop.model(c, answers[a:b]))
+            outs.append(prop.model(c, answers[a:b], impl_side[i][0]) if uses else prop.model(c, answers[a:b]))
         except BaseException as e:
             outs.append({"model_error": f"{type(e).__name__}: {str(e)[:300]}"})
     return outs
@@ -265,7 +273,7 @@ def run_check(prop: Prop, tier: str, seed: int, replay: str | None = None) -> in
     cases = corpus + gen
     try:
         impl_side = run_impl_side(prop, cases)
-        model_side = run_model_side(prop, cases) if ok else [None] * len(cases)
+        model_side = run_model_side(prop, cases, impl_side) if ok else [None] * len(cases)
     except leandrv.InfraError as e:
         say(f"INFRA: {e}")
         return 2
